@@ -46,6 +46,10 @@ def configs(tier):
                 if m * Q * n * Q > (16 if q else 36):
                     continue
                 out.append({'name': 'as-%dx%d-Q%d' % (m, n, Q), 'kind': 'as', 'in': [m, n], 'Q': Q})
+    # lengths that are not "fast" FFT lengths (a prime factor above 11): an implementation that transforms at a padded fast length and crops
+    # differs only there
+    for (m, n) in [] if q else [(1, 13), (13, 1)]:      # ~10 min each: thorough tier only
+        out.append({'name': 'as-%dx%d-Q1' % (m, n), 'kind': 'as', 'in': [m, n], 'Q': 1})
     out.append({'name': 'wavefront-wrappers', 'kind': 'wf'})
     return out
 
